@@ -176,9 +176,9 @@ def _prune():
         return
     ds.sort(key=lambda d: os.path.getmtime(d), reverse=True)
     now = time.time()
-    for d in ds[6:]:
+    for d in ds[8:]:
         # never remove a directory another process may be filling right now
-        if now - os.path.getmtime(d) > 3600:
+        if now - os.path.getmtime(d) > 1500:
             shutil.rmtree(d, ignore_errors=True)
 
 
